@@ -38,6 +38,11 @@ def run(ctx):
              gen.vrec([('__entity', gen.vrec([('type', gen.vstr('User')), ('id', gen.vstr('a'))]))]),
              gen.vrec([('__extn', gen.vlong(1))]), gen.vset([gen.vlong(-1), gen.vdec(-1)]), gen.vset([gen.vdec(-1), gen.vlong(-1)]),
              gen.vset([gen.vlong(-1), gen.vdur(-1), gen.vlong(0), gen.vbool(False)])]
+    # sizes around internal thresholds: long ids, strings, keys and extension arguments, alone and nested
+    for n in (200, 990, 992, 993, 1000, 1023, 1024, 1025, 2048, 5000, 70000):
+        big = 'k' * n
+        vals += [gen.vent('T', big), gen.vent('N::' + big[:300], 'i'), gen.vstr(big), gen.vrec([(big, gen.vlong(1))]), gen.vset([gen.vent('T', big), gen.vlong(1)]),
+                 gen.vrec([('a', gen.vent('T', big)), ('b', gen.vdec(15000))]), gen.vset([gen.vrec([('k', gen.vset([gen.vent('T', big)]))])])]
     for _ in range(3000 if quick else 150000):
         vals.append(g.value(3))
     cases = []
